@@ -126,6 +126,11 @@ C05_NEED = ["InterchainTransfer/ok", "InterchainTransfer/positive_amount", "Inte
             "InterchainTransfer/registered", "InterchainTransfer/gas_positive", "InterchainTransfer/gas_balance", "Deliver/ok", "Deliver/custody",
             "Deliver/receiver_ok", "DeployInterchainToken/ok", "RegisterCanonical/ok", "RemoveTrusted/ok"]
 
+C18_NEED = ["DeployRemoteInterchainToken/ok", "DeployRemoteInterchainToken/registered", "DeployRemoteInterchainToken/destination_trusted",
+            "DeployRemoteInterchainToken/named_auth", "DeployRemoteInterchainToken/gas_positive", "DeployRemoteInterchainToken/gas_balance",
+            "DeployRemoteCanonical/ok", "DeployRemoteCanonical/metadata", "DeployRemoteCanonical/registered", "DeployRemoteCanonical/gas_auth",
+            "SetFakeMeta/ok", "RemoveTrusted/ok"]
+
 PROPS = {
     "C02": {
         "title": "Each message is approved once and executed once, only by its destination",
@@ -366,6 +371,21 @@ PROPS = {
         "level_text": "TLC proves custody = locked - released >= 0 with the canonical token's supply conserved, service-deployed supply changing only by outbound burns, inbound mints, the initial supply and minters' own mints, exact debit / gas / announcement on every successful outbound transfer (trusted destination, positive amount), exact credit inbound, and the frame rule, on every transition of a finite instance (all interleavings; every outbound transfer costs gas); the transitions are executed against the real service, gateway, gas service, a Stellar asset contract and the pinned interchain token; the announced payload bytes are decoded by the harness's own codec and compared field by field.",
         "rule": "cases = transitions of the bounded TLC instance replayed against the contracts; distinct = distinct (abstract pre-state, action) pairs",
         "assumptions": ["soroban-env-host test mode implements on-chain semantics", "the harness's own ABI codec is cross-validated against Abi.tla by the C10 check", "bounds: 2 users, 2-3 tokens, amounts -1..3, gas budget 2-4 units"],
+    },
+    "C18": {
+        "title": "Remote token deployments announce the registered token's true id and metadata",
+        "policy": {"guards": ["registered", "destination_trusted", "metadata", "encodable", "gas_auth", "gas_positive", "gas_balance", "named_auth"],
+                   "fields": [], "act_fields": {"DeployRemoteInterchainToken": ["*"], "DeployRemoteCanonical": ["*"]},
+                   "events": ["contract_called", "gas_paid"], "rets": ["DeployRemoteInterchainToken", "DeployRemoteCanonical"]},
+        "jobs": [
+            {"kind": "graph", "spec": "MC_C18", "cfg": "MC_C18_small", "tiers": ["quick"], "module": "ITS", "evkinds": ITS_EVENTS,
+             "need": C18_NEED, "control": sibling_control(["name", "caller", "salt", "tok", "spender", "auth", "gas"], "dest"), "max_len": 40, "workers": 16},
+            {"kind": "graph", "spec": "MC_C18", "cfg": "MC_C18_full", "tiers": ["thorough"], "module": "ITS", "evkinds": ITS_EVENTS,
+             "need": C18_NEED + ["DeployRemoteCanonical/encodable"], "control": sibling_control(["name", "caller", "salt", "tok", "spender", "auth", "gas"], "dest"), "max_len": 40, "workers": 16},
+        ],
+        "level_text": "TLC proves 'announces exactly the id derived from the caller's (deployer, salt) or the token address with the token's actual metadata and no minter, only for a registered token, a trusted destination, representable metadata and a paid, authorised gas amount; moves nothing but the gas; failures change nothing' on every transition of a finite instance (gas is finite); transitions are executed against the real service with a Stellar asset contract and a metadata-forging canonical token; the announced bytes are decoded by the harness's own codec.",
+        "rule": "cases = transitions of the bounded TLC instance replayed against the contracts; distinct = distinct (abstract pre-state, action) pairs",
+        "assumptions": ["soroban-env-host test mode implements on-chain semantics", "the harness's own ABI codec is cross-validated against Abi.tla by the C10 check"],
     },
 }
 
